@@ -421,7 +421,9 @@ class LayoutSegment:
             lines = []
             if pad_left:
                 lines.append((1, spos - 1))
-            lines.append((end - start - pad_left - pad_right, spos, epos))
+            if end - start - pad_left - pad_right > 0:
+                # nothing is left of the text when only half a wide character was inside the range
+                lines.append((end - start - pad_left - pad_right, spos, epos))
             if pad_right:
                 lines.append((1, epos))
             return lines
